@@ -247,8 +247,11 @@ class MediaList(cssutils.util._NewListBase):
         self._checkReadonly()
         oldMedium = normalize(oldMedium)
 
-        for i, mq in enumerate(self):
-            if normalize(mq.value.mediaType) == oldMedium:
+        for i, item in enumerate(self._seq):
+            if (
+                item.type == 'MediaQuery'
+                and normalize(item.value.mediaType) == oldMedium
+            ):
                 del self[i]
                 break
         else:
@@ -262,7 +265,7 @@ class MediaList(cssutils.util._NewListBase):
         list, returns ``None``.
         """
         try:
-            return self[index].mediaType
+            return list(self)[index].value.mediaType
         except IndexError:
             return None
 
